@@ -31,6 +31,8 @@ type SpecEnv struct {
 	noAlts bool // inside an instantiated alternative of an exists: nested exists stay plain
 	header *ssa.BasicBlock
 	callSite bool // evaluating a callee's contract at a call site: the callee's ghost call counters are not the caller's
+	owner    *ssa.Function // the function whose contract the clause belongs to (default: x.fn)
+	aliasing bool
 }
 
 func (x *Exec) specEnv(cur *State, extra map[string]SVal) *SpecEnv {
@@ -360,6 +362,25 @@ func (e *SpecEnv) ident(name string) SVal {
 	// zero-arity pure function
 	if pf, ok := e.u.eng.cs.Pures[name]; ok && len(pf.Params) == 0 {
 		return e.applyPure(pf, nil)
+	}
+	// a parameter or local that was renamed since the contract was written: same declaration
+	// ordinal, other name (recorded in /verif/locals.json). The clause is evaluated with the new
+	// name - it is still proved, not trusted, so a wrong guess cannot make anything pass; failures
+	// in a function where this happened are reported as undecided, like contract drift.
+	if !e.aliasing {
+		owner := e.owner
+		if owner == nil && e.x != nil {
+			owner = e.x.fn
+		}
+		if owner != nil {
+			if alt, ok := e.u.eng.renamedIdent(owner, name); ok {
+				e.aliasing = true
+				defer func() { e.aliasing = false }()
+				v := e.ident(alt)
+				e.u.eng.noteAlias(owner, name, alt)
+				return v
+			}
+		}
 	}
 	e.fail("unknown identifier %q", name)
 	return SVal{}
